@@ -550,6 +550,32 @@ def run_trans_sequence(ctx, name, seq, case):
     for op in seq:
         before = tsnap(t)
         ctx.api(f"Transform.{op[0]}")
+        if op[0] == "reset":
+            ctx.tag("trans:assign")
+            t.reset()
+            mp.reset()
+            nontriv = True
+            compare(ctx, t.params, mp, case, "reset", prefix=f"Transform.{name}.params")
+            compare(ctx, t.constants, mc, case, "reset",
+                    prefix=f"Transform.{name}.constants")
+            continue
+        if op[0] == "setall":
+            ctx.tag("trans:assign")
+            vals = [float(v) for v in op[1]]
+            try:
+                t.params.values = vals
+                raised = False
+            except ValueError:
+                raised = True
+            acc = mp.copy().set_all(vals)
+            ctx.check("assign.accepted" if acc else "assign.rejected", raised != acc,
+                      f"Transform.{name}|params.values|accept-mismatch", case,
+                      {"values": vals, "raised": raised})
+            if acc and not raised:
+                mp.set_all(vals)
+            nontriv = True
+            compare(ctx, t.params, mp, case, "setall", prefix=f"Transform.{name}.params")
+            continue
         if op[0] == "assign":
             nm, val = op[1], op[2]
             ctx.tag("trans:assign")
@@ -599,6 +625,12 @@ def run_transforms(ctx):
         ops = [(r,) for r in READONLY]
         for j, (nm, val) in enumerate(ASSIGN.get(name, [])):
             ops.append(("assign", nm, val, "attr" if j % 2 == 0 else "key"))
+        t0 = make_transform(name)
+        if t0.params.nval > 0:
+            ops.append(("reset",))
+            mids = [float(np.clip(0.37, lo, hi)) if np.isfinite(lo) or np.isfinite(hi)
+                    else 0.37 for lo, hi in zip(t0.params.mins, t0.params.maxs)]
+            ops.append(("setall", mids))
         for d in range(1, L + 1):
             for seqi in itertools.product(range(len(ops)), repeat=d):
                 idx += 1
